@@ -115,6 +115,18 @@ NOTES = {
                "hash, then transform (remove_empty_metadata / in-place backend passes), then hash again"),
     "C01_m3": ("_resolve_called_lambdas.visit_ListComp pushes the hide-map before visiting the first iterable",
                "a captured helper with a comprehension whose loop variable re-uses the helper's parameter name"),
+    "C02_m3": ("argument_stack.mentions returns after inspecting the deepest frame only",
+               ">= 2 nested called lambdas, an outer argument mentioning a free name, an inner un-called lambda re-using that name as parameter"),
+    "C11_m3": ("remove_empty_metadata's fast path for non-MetaData calls uses the in-place generic_visit of the base class",
+               "an empty MetaData({}) below a non-MetaData operator call, then value() on that stream or a descendant"),
+    "C03_m3": ("find_identifier is given the string 'lambda' (substring test) when looking for further lambdas on the line",
+               "two query calls on one line with a receiver named by a substring of 'lambda' (d, m, a, la, ...) between the lambdas"),
+    "C12_m3": ("value_async retries `exe(query)` without the title when the executor raises TypeError and no title was given",
+               "an executor raising TypeError (or a subclass) of its own, value() called without a title"),
+    "C10_m3": ("remap_from_lambda mutates known_types in place; the operators' mutable default argument accumulates name->type entries",
+               "a typed query using a parameter name through an operator, then an untyped lambda using that name as a free name, same process"),
+    "C19_m3": ("a shortcut name called in another arity or with a keyword is returned without visiting its arguments",
+               "shortcut calls inside the arguments of a non-matching shortcut-named call: Max(Sum(a), Sum(b))"),
     "C20_m2": ("the dump is encoded with errors='replace': non-ASCII characters collapse to '?'",
                "two queries differing in one non-ASCII character at the same position"),
 }
@@ -124,65 +136,13 @@ REBASED = ("patch re-created by hand on /repo HEAD (the same change) after later
 
 # name -> one sentence on how the evaluation of this change went over time (only where there is something to say)
 HISTORY = {
-    "C02_m1": MISSED + "adding zero-parameter called lambdas to the C02 generator",
-    "C03_m1": MISSED + "generating several lambdas per line with short NAME tokens between them in the finder generator",
-    "C04_m1": REBASED,
-    "C04_m2": MISSED + "passing the same callable twice with the captured variable rebound in between",
-    "C05_m1": MISSED + "extending the capture generator with nested helpers that hand lambdas on to further helpers",
-    "C05_m2": MISSED + "extending the capture generator with a refused helper call followed by a name spelled like its parameter",
-    "C06_m1": ("initially reported only as a broken correspondence (no failing input); strengthened by adding oracle inputs whose "
-               "element names are contained in the loop variable name"),
-    "C06_m2": MISSED + "adding dataclasses with kw_only and InitVar fields to the generator; " + REBASED,
-    "C08_m2": MISSED + "generating type variables at nesting depth >= 2",
-    "C09_m2": MISSED + "generating a decorated subclass that inherits the called method from an undecorated base",
-    "C10_m1": (MISSED + "running a corpus of shadowing patterns and a seeded sample of the generated lambdas also as Python "
-               "callables written in a module whose globals are named like the lambda parameters (the C10 check had supplied "
-               "strings and ast objects only; the C04 check reported the change all along); " + REBASED),
-    "C11_m2": ("QMetaData copies the top node only when it already carries _q_metadata",
-               "QMetaData on a stream whose top node has no query metadata yet, observed from the parent or a sibling"),
-    "C12_m1": ("_get_executor memoises the resolved executor (including an override) on the stream",
-               "value(executor=X) followed by value() on the same stream or one derived from it"),
-    "C12_m2": ("the cleaner returns args[0] of an empty wrapper without visiting beneath it",
-               ">= 2 empty MetaData wrappers in one chain"),
-    "C13_m1": ("parse_as_ast source cache with shallow copy (as C01_m1)",
-               "same lambda code object used twice with different captured values below the body's top node"),
-    "C13_m2": ("as_ast quotes strings with json.dumps: astral code points become surrogate pairs",
-               "a character above U+FFFF in a string passed to as_ast directly (tree/file names)"),
-    "C14_m1": ("call_SelectMany returns early when its source is syntactically a Where",
-               "a SelectMany stage directly after a Where that follows a packaging stage, as the last stage of the chain"),
-    "C14_m2": ("visit_Subscript: the dict branch became an elif of the int/bool tuple branch",
-               "an intermediate dictionary with integer keys read back by constant subscript"),
-    "C15_m1": ("the cleaner copies only args/keywords lists of Call nodes",
-               "an empty wrapper inside a list field of a non-Call node (tuple element, dict value, operand)"),
-    "C15_m2": ("extract_metadata de-duplicates equal dictionaries",
-               ">= 2 wrappers with equal dictionaries in one query"),
-    "C16_m1": ("lookup_query_metadata stops only on truthy values",
-               "a key re-set later on the path to a falsy value (0, '', False, []) after an earlier truthy one, with an operator in between"),
-    "C16_m2": ("QMetaData sets _q_metadata on the shared node when the node has none yet (as C11_m2)",
-               "branching from a stream whose top node has no metadata; QMetaData first on one branch"),
-    "C17_m1": ("keyword values are not visited by the rewritten visit_Call",
-               "a method-form operator call inside a keyword-argument value of a non-operator call"),
-    "C17_m2": ("operator names matched case-insensitively (casefold)",
-               "a non-operator method whose name equals an operator name up to case (.count(), .first())"),
-    "C18_m1": ("literal index bounds check not -len < n < len: index -len raises the index error",
-               "a tuple/list literal indexed by a negative constant exactly equal to -len"),
-    "C18_m2": ("the fall-through Subscript is rebuilt with the unvisited slice",
-               "an un-evaluable subscript whose whole slice is a name with a pending substitution"),
-    "C19_m1": ("the Max branch does not recurse into its argument",
-               "a shortcut call inside the argument of Max(...)"),
-    "C19_m2": ("the keywords guard is dropped from the rule condition",
-               "a shortcut name called with one positional argument plus keyword arguments"),
-    "C20_m1": ("lru_cache on calc_ast_hash (keyed by node identity)",
-               "hash a query, edit the same tree in place, hash it again"),
-    "C20_m2": ("the dump is encoded with errors='replace': non-ASCII characters collapse to '?'",
-               "two queries differing in one non-ASCII character at the same position"),
-}
-
-MISSED = "initially missed by the quick check; strengthened by "
-REBASED = ("patch re-created by hand on /repo HEAD (the same change) after later fix commits touched the same lines")
-
-# name -> one sentence on how the evaluation of this change went over time (only where there is something to say)
-HISTORY = {
+    "C14_m3": MISSED + "packaging behind First(Select(seq, j: package)) in the chain generator, so that projections reach First() only through substitution (and the result-shape stripping looks through First(Select(..)))",
+    "C02_m3": MISSED + "the hygiene family of C02: pending definitions at every stack depth that mention a free name which an inner un-called lambda binds",
+    "C18_m3": MISSED + "the shared-selector family of C18: one selector reaching several literal projections through a lambda parameter, boundary indices of both signs",
+    "C12_m3": MISSED + "executors that raise TypeError / a TypeError subclass / AttributeError / NotImplementedError in the scripted outcomes",
+    "C01_m1": MISSED + "programs that execute one lambda several times with different captured values (loops, local helpers called twice)",
+    "C07_m3": MISSED + "collection operators with their lambda passed by keyword inside lambdas in the type-follower generators",
+    "C10_m3": MISSED + "multi-step histories in one process: typed queries over the whole name pool first, then untyped lambdas using those names freely",
     "C02_m1": MISSED + "adding zero-parameter called lambdas to the C02 generator",
     "C03_m1": MISSED + "generating several lambdas per line with short NAME tokens between them in the finder generator",
     "C04_m1": REBASED,
